@@ -242,6 +242,11 @@ type builder struct {
 	sec   [][]byte
 	next  int
 	plain bool // marker model: opaque leaves become the plain string "[REDACTED]"
+	// afterFill, when set, is called with every real config object (pointer to
+	// the struct) right after its secrets were (re)filled and before it is
+	// copied into an enclosing container: the use checks call the struct's
+	// public entry points there.
+	afterFill func(n *Node, p reflect.Value)
 }
 
 func newBuilder() *builder { return &builder{cache: map[string]reflect.Value{}} }
@@ -324,6 +329,9 @@ func (b *builder) build(n *Node, path string) reflect.Value {
 	case "real":
 		p := b.cached(path, func() reflect.Value { return reflect.ValueOf(realByName[n.Real].mk()) })
 		b.fillStruct(p.Elem(), n.N, path)
+		if b.afterFill != nil {
+			b.afterFill(n, p)
+		}
 		return p.Elem()
 	}
 	panic("bad node kind " + n.K)
